@@ -38,7 +38,8 @@ def schedule (block : Array UInt32) : Array UInt32 := Id.run do
     w := w.push (w[i - 16]! + s0 + w[i - 7]! + s1)
   return w
 
-def compress (h : Array UInt32) (block : Array UInt32) : Array UInt32 := Id.run do
+/-- the 64 rounds: the working variables a..h after the last round -/
+def rounds (h : Array UInt32) (block : Array UInt32) : Array UInt32 := Id.run do
   let w := schedule block
   let mut a := h[0]!
   let mut b := h[1]!
@@ -56,7 +57,11 @@ def compress (h : Array UInt32) (block : Array UInt32) : Array UInt32 := Id.run 
     let maj := (a &&& b) ^^^ (a &&& c) ^^^ (b &&& c)
     let t2 := s0 + maj
     hh := g; g := f; f := e; e := d + t1; d := c; c := b; b := a; a := t1 + t2
-  return #[h[0]! + a, h[1]! + b, h[2]! + c, h[3]! + d, h[4]! + e, h[5]! + f, h[6]! + g, h[7]! + hh]
+  return #[a, b, c, d, e, f, g, hh]
+
+def compress (h : Array UInt32) (block : Array UInt32) : Array UInt32 :=
+  let r := rounds h block
+  #[h[0]! + r[0]!, h[1]! + r[1]!, h[2]! + r[2]!, h[3]! + r[3]!, h[4]! + r[4]!, h[5]! + r[5]!, h[6]! + r[6]!, h[7]! + r[7]!]
 
 def blocks : Nat → List UInt32 → List (Array UInt32)
   | 0, _ => []
@@ -78,5 +83,24 @@ def hmac (key msg : List UInt8) : List UInt8 :=
   let ipad := key.map (· ^^^ 0x36)
   let opad := key.map (· ^^^ 0x5c)
   sha256 (opad ++ sha256 (ipad ++ msg))
+
+theorem compress_size (h b : Array UInt32) : (compress h b).size = 8 := rfl
+
+theorem foldl_compress_size (bs : List (Array UInt32)) (h : Array UInt32) (hs : h.size = 8) :
+    (bs.foldl compress h).size = 8 := by
+  induction bs generalizing h with
+  | nil => exact hs
+  | cons b rest ih => exact ih (compress h b) (compress_size h b)
+
+/-- a SHA-256 digest is 32 bytes -/
+theorem sha256_length (msg : List UInt8) : (sha256 msg).length = 32 := by
+  unfold sha256
+  dsimp only
+  generalize hfold : (blocks ((wordsOf (pad msg)).length / 16 + 1) (wordsOf (pad msg))).foldl compress
+    #[0x6a09e667, 0xbb67ae85, 0x3c6ef372, 0xa54ff53a, 0x510e527f, 0x9b05688c, 0x1f83d9ab, 0x5be0cd19] = h
+  have hsz : h.size = 8 := by rw [← hfold]; exact foldl_compress_size _ _ rfl
+  have hl : h.toList.length = 8 := by simpa using hsz
+  match h.toList, hl with
+  | [_, _, _, _, _, _, _, _], _ => rfl
 
 end PasskeyVerif.Sha256
